@@ -69,9 +69,13 @@ theorem C10_sibling_sum_exact_widths (box : Int) (hb : 0 ≤ box) (ps : List Nat
 theorem C10_sibling_sum_counterexample : colPx 500 3 .auto + colPx 500 3 .auto + colPx 500 3 .auto = 501 := by decide
 
 /-- images and dividers without an explicit width fill exactly the space left after padding -/
-theorem C10_leaf_fills (c : Int) (lf : Leaf) (x : Int) (hc : 0 < c) (h : leafW c lf = some x) :
-    ∃ l r, (lf = .image l r ∨ lf = .divider l r) ∧ (0 < c - ((l + r : Nat) : Int) → x = c - ((l + r : Nat) : Int)) :=
-  leaf_exact c lf x hc h
+theorem C10_leaf_fills (c : Int) (l r : Nat) (lf : Leaf) (hlf : lf = .image l r ∨ lf = .divider l r) (x : Int) (hc : 0 < c)
+    (h : leafW c lf = some x) : 0 < c - ((l + r : Nat) : Int) → x = c - ((l + r : Nat) : Int) :=
+  leaf_exact c l r lf hlf x hc h
+
+/-- an image with an explicit width keeps it only as far as the space left after padding allows (MJML: min of the two) -/
+theorem C10_explicit_width_clamped (c : Int) (l r w : Nat) (x : Int) (hc : 0 < c) (h : leafW c (.imageW l r w) = some x)
+    (hp : 0 < c - ((l + r : Nat) : Int)) : x = min (w : Int) (c - ((l + r : Nat) : Int)) := leaf_explicit c l r w x hc h hp
 
 /-- … where the column's content box is exactly the column minus its own padding and borders -/
 theorem C10_column_content (px : Int) (e : Edges) (h : 0 ≤ px - (e.total : Int)) : colContent px e = px - (e.total : Int) :=
@@ -83,7 +87,8 @@ theorem C10_column_content (px : Int) (e : Edges) (h : 0 ≤ px - (e.total : Int
     default 25 px side padding gets 93 px -/
 example : (impl ⟨480, none, .sec ⟨25, 25, 0, 0⟩ [.col ⟨.auto, ⟨0, 0, 0, 0⟩, .image 25 25⟩, .col ⟨.auto, ⟨0, 0, 0, 0⟩, .other⟩,
       .col ⟨.auto, ⟨0, 0, 0, 0⟩, .other⟩]⟩).box = 430 := by decide
-example : colPx 430 3 .auto = 143 ∧ leafW (colContent 143 ⟨0, 0, 0, 0⟩) (.image 25 25) = some 93 := by decide
+example : colPx 430 3 .auto = 143 ∧ leafW (colContent 143 ⟨0, 0, 0, 0⟩) (.image 25 25) = some 93 ∧
+    leafW 300 (.imageW 25 25 900) = some 250 ∧ leafW 300 (.imageW 25 25 100) = some 100 ∧ leafW 300 .carousel = some 300 := by decide
 /-- a wrapper with padding "10px 20px" and a 1 px border in a 500 px body: its section is 458 px wide -/
 example : (impl ⟨500, some ⟨20, 20, 1, 1⟩, .sec ⟨0, 0, 0, 0⟩ []⟩).sectionW = 458 := by decide
 /-- a 60% group of a 480 px box is 288 px; its 25% column 72 px, its automatic column (of two) 144 px -/
